@@ -6,6 +6,9 @@ let err_of = function
   | "UnexpectedEof" -> UnexpectedEof | "InvalidInput" -> InvalidInput | "InvalidData" -> InvalidData
   | _ -> OtherErr
 
+(* "Eof" = the decoder ended cleanly (read returned Ok(0)); anything else is its error kind *)
+let stop_of = function "Eof" -> None | s -> Some (err_of s)
+
 let str_err stop = function
   | UnexpectedEof -> "UnexpectedEof" | InvalidInput -> "InvalidInput" | InvalidData -> "InvalidData"
   | OtherErr -> stop   (* the model carries other kinds opaquely; the case names it *)
@@ -20,7 +23,7 @@ let handle kind a =
   | "da" | "daf" | "dv" | "dvf" ->
       let cfg = a.(0) in
       let w = bytes_of_hex a.(1) in
-      let infl = { avail = bytes_of_hex a.(2); stop = err_of a.(3) } in
+      let infl = { avail = bytes_of_hex a.(2); stop = stop_of a.(3) } in
       let fonly = String.length kind = 3 in
       if kind.[1] = 'a' then
         (match build_a (comp_of cfg.[0]) (afmt_of cfg.[1]) w infl with
